@@ -1,4 +1,6 @@
 import TF.Proofs.PolyInterp
+import TF.Proofs.PolyInterpBary
+import TF.Proofs.PolyInterpEO
 /-!
 # C08 — interpolation, bulk evaluation, zerofiers and coset extrapolation are exact
 
@@ -184,8 +186,153 @@ theorem interpolate_rejects (t : Thr) (threads : Nat) (domain values : List K)
 
 end
 
-/-- the contracts on the routines of C07/C09 are satisfiable (so none of the theorems above is vacuous) … -/
+/-! ### cosets.  `hN : Ext.LawfulNtt root E` is the contract of C06: `ntt` evaluates at the powers of `ω = root n`,
+`intt` returns the polynomial of degree `< n` with the given values there (for pairwise distinct powers, i.e. a
+primitive `ω`).  `cosetDomain offset ω n = [offset·ω^i | i < n]`. -/
+section
+variable {E : Ext K} (hE : E.Lawful) (hN : Ext.LawfulNtt root E)
+include hN
+
+/-- `fast_coset_evaluate` = the Horner values on the coset, in order; it panics exactly when the order is not
+    above the degree or not a power of two (`fast_coset_evaluate_panics`). -/
+theorem fast_coset_evaluate_spec (p : List K) (offset : K) (order : Nat) (ω : K) (hω : root order = some ω)
+    (out : List K) (h : fastCosetEvaluate FK E p offset order = some out) :
+    out = (cosetDomain offset ω order).map (fun x => (denote p).eval x) :=
+  fastCosetEvaluate_sound root hN p offset order ω hω out h
+
+omit hN in
+theorem fast_coset_evaluate_panics (p : List K) (offset : K) (order : Nat) :
+    fastCosetEvaluate FK E p offset order = none ↔
+      ¬ (degSucc FK p ≤ order ∧ (order = 0 ∨ isPow2 order = true)) := by
+  unfold fastCosetEvaluate nttChecked
+  simp only [length_resize]
+  by_cases h1 : degSucc FK p ≤ order <;> by_cases h2 : order = 0 <;> by_cases h3 : isPow2 order = true <;>
+    simp [h1, h2, h3]
+
+/-- `fast_coset_interpolate` returns the unique polynomial of degree `< n` through the values on the coset. -/
+theorem fast_coset_interpolate_spec (offset : K) (values : List K) (ω : K) (hω : root values.length = some ω)
+    (hprim : ((List.range values.length).map (fun i => ω ^ i)).Nodup) (f : List K)
+    (h : fastCosetInterpolate FK E offset values = some f) :
+    Interpolates (cosetDomain offset ω values.length) values (denote f) :=
+  fastCosetInterpolate_sound root hN offset values ω hω hprim f h
+
+include hE
+
+/-- the naive strategy (INTT, scale by the inverse offset, bulk evaluation), any cut-off values -/
+theorem naive_coset_extrapolate_spec (t : Thr) (offset : K) (codeword points : List K) (ω : K)
+    (hω : root codeword.length = some ω) (hprim : ((List.range codeword.length).map (fun i => ω ^ i)).Nodup)
+    (out : List K) (h : naiveCosetExtrapolate FK E t offset codeword points = some out) :
+    ∃ g : K[X], Interpolates (cosetDomain offset ω codeword.length) codeword g ∧
+      out = points.map (fun x => g.eval x) :=
+  naiveCosetExtrapolate_sound root hN hE t offset codeword points ω hω hprim out h
+
+variable (hR : RootsOK root)
+include hR
+
+/-- **`fast_modular_coset_interpolate`, all three arms** (Lagrange / INTT-then-reduce / even-odd recursion with the
+    sparse zerofiers), **for every value of the two cut-offs** and every codeword length `2^k`: the result is the
+    coset interpolant modulo the modulus.  `hR` is what C06 proves about the table of roots (`root (2n)² = root n`,
+    `root (2n)^n = -1`, distinct powers); `hm2` says that the translated constant `MINUS_TWO_INVERSE` is `(-2)⁻¹`
+    in the field. -/
+theorem fast_modular_coset_interpolate_spec (t : Thr) (hT : 2 ≤ t.zf) (modulus : List K)
+    (hm2 : ((TF.Gen.MINUS_TWO_INVERSE : ℕ) : K) * (-2) = 1) (k : Nat) (values : List K) (offset : K)
+    (hlen : values.length = 2 ^ k) (hoff : offset ≠ 0) (ω : K) (hω : root (2 ^ k) = some ω) (r : List K)
+    (h : fmci FK E t values offset modulus = some r) :
+    ∃ g : K[X], Interpolates (cosetDomain offset ω (2 ^ k)) values g ∧ denote r = g % denote modulus :=
+  fmci_sound root hE hN hR t hT modulus hm2 k values offset hlen hoff ω hω r h
+
+/-- **Extrapolation = evaluate(interpolate on the coset)** for `coset_extrapolate`: both strategies, all three arms
+    of the fast one, every value of the three cut-offs, every codeword length `2^k`, every number of points, every
+    offset `≠ 0`: the output is `g` evaluated at the points in order, `g` *the* polynomial of degree `< 2^k` through
+    the codeword on `offset·⟨ω⟩`. -/
+theorem coset_extrapolate_spec (t : Thr) (hT : 2 ≤ t.zf)
+    (hm2 : ((TF.Gen.MINUS_TWO_INVERSE : ℕ) : K) * (-2) = 1) (k : Nat) (offset : K) (codeword points : List K)
+    (hlen : codeword.length = 2 ^ k) (hoff : offset ≠ 0) (ω : K) (hω : root (2 ^ k) = some ω)
+    (out : List K) (h : cosetExtrapolateWith FK E t offset codeword points = some out) :
+    ∃ g : K[X], Interpolates (cosetDomain offset ω (2 ^ k)) codeword g ∧ out = points.map (fun x => g.eval x) :=
+  cosetExtrapolateWith_sound_full root hE hN hR t hT hm2 k offset codeword points hlen hoff ω hω out h
+
+/-- **Batch / parallel batch extrapolation** (`batch_coset_extrapolate`, `par_batch_coset_extrapolate` — one model,
+    the parallel iterator is order preserving): each of the `⌊|codewords| / 2^k⌋` codewords is extrapolated as by
+    interpolate-then-evaluate and the results are concatenated in order; a trailing partial codeword is ignored.
+    Both strategies, all arms, every cut-off value. -/
+theorem batch_coset_extrapolate_spec (t : Thr) (hT : 2 ≤ t.zf)
+    (hm2 : ((TF.Gen.MINUS_TWO_INVERSE : ℕ) : K) * (-2) = 1) (k : Nat) (offset : K) (codewords points : List K)
+    (hoff : offset ≠ 0) (ω : K) (hω : root (2 ^ k) = some ω)
+    (out : List K) (h : batchCosetExtrapolateWith FK E t offset (2 ^ k) codewords points = some out) :
+    ∃ parts, List.Forall₂ (SliceOK offset ω (2 ^ k) points) (codewordSlices (2 ^ k) codewords) parts ∧
+      out = parts.flatten :=
+  batchCosetExtrapolateWith_sound_full root hE hN hR t hT hm2 k offset codewords points hoff ω hω out h
+
+end
+
+/-- the hypotheses on the table of roots are satisfiable: over `ℚ` with `root 1 = 1`, `root 2 = -1` (and no other
+    roots) — and `MINUS_TWO_INVERSE` is `(-2)⁻¹` modulo `P` -/
+example : RootsOK (fun n => if n = 1 then some (1 : ℚ) else if n = 2 then some (-1) else none) where
+  sq k ω h := by
+    have hk : k = 0 := by
+      by_contra hk
+      have h4 : 4 ≤ 2 ^ (k + 1) := by
+        have : 2 ^ 2 ≤ 2 ^ (k + 1) := Nat.pow_le_pow_right (by norm_num) (by omega)
+        simpa using this
+      rw [if_neg (by omega), if_neg (by omega)] at h
+      exact absurd h (by simp)
+    subst hk
+    simp at h; subst h; simp
+  neg k ω h := by
+    have hk : k = 0 := by
+      by_contra hk
+      have h4 : 4 ≤ 2 ^ (k + 1) := by
+        have : 2 ^ 2 ≤ 2 ^ (k + 1) := Nat.pow_le_pow_right (by norm_num) (by omega)
+        simpa using this
+      rw [if_neg (by omega), if_neg (by omega)] at h
+      exact absurd h (by simp)
+    subst hk
+    simp at h; subst h; simp
+  prim k ω h := by
+    have hk : k = 0 ∨ k = 1 := by
+      by_contra hk
+      have h4 : 4 ≤ 2 ^ k := by
+        have : 2 ^ 2 ≤ 2 ^ k := Nat.pow_le_pow_right (by norm_num) (by omega)
+        simpa using this
+      rw [if_neg (by omega), if_neg (by omega)] at h
+      exact absurd h (by simp)
+    rcases hk with rfl | rfl
+    · simp
+    · simp at h; subst h; decide
+example : (TF.Gen.MINUS_TWO_INVERSE * (TF.Gen.P - 2)) % TF.Gen.P = 1 := by decide
+
+section
+/-- **`barycentric_evaluate`** = evaluation of the subgroup interpolant: for every codeword of length `n ≥ 1` on the
+    powers of a primitive `n`-th root `ω = root n` and every indeterminate outside the subgroup, the result is
+    `f(x)` for *the* polynomial `f` with `deg f < n`, `f(ω^i) = codeword[i]`. -/
+theorem barycentric_evaluate_spec (codeword : List K) (x : K) (ω : K) (hn : 0 < codeword.length)
+    (hω : root codeword.length = some ω) (hω1 : ω ^ codeword.length = 1)
+    (hprim : ((List.range codeword.length).map (fun i => ω ^ i)).Nodup)
+    (hx : x ∉ (List.range codeword.length).map (fun i => ω ^ i))
+    (f : K[X]) (hf : Interpolates ((List.range codeword.length).map (fun i => ω ^ i)) codeword f) :
+    barycentricEvaluate FK codeword x = some (f.eval x) :=
+  barycentricEvaluate_spec root codeword x ω hn hω hω1 hprim hx f hf
+example : ((-1 : ℚ)) ^ 2 = 1 ∧ (5 : ℚ) ∉ (List.range 2).map (fun i => (-1 : ℚ) ^ i) := by
+  constructor
+  · norm_num
+  · decide
+
+/-- the excluded indeterminates: inside the subgroup the code divides by zero (batch inversion of `x - ω^i`) and
+    panics. -/
+theorem barycentric_evaluate_panics_in_domain (codeword : List K) (x : K) (ω : K)
+    (hω : root codeword.length = some ω) (hx : x ∈ (List.range codeword.length).map (fun i => ω ^ i)) :
+    barycentricEvaluate FK codeword x = none :=
+  barycentricEvaluate_in_domain root codeword x ω hω hx
+end
+
+/-- a primitive 4th root of unity in `ℚ(i)`-free form: the hypotheses on `ω` are satisfiable, e.g. `ω = -1`, `n = 2` -/
+example : ((List.range 2).map (fun i => (-1 : ℚ) ^ i)).Nodup := by decide
+
+/-- the contracts on the routines of C06/C07/C09 are satisfiable (so none of the theorems above is vacuous) … -/
 example : (Ext.ideal : Ext ℚ).Lawful := Ext.ideal_lawful
+example (root : Nat → Option ℚ) : (Ext.idealNtt root).Lawful ∧ Ext.LawfulNtt root (Ext.idealNtt root) :=
+  ⟨Ext.idealNtt_lawful root, Ext.idealNtt_lawfulNtt root⟩
 /-- … and so are the hypotheses on the points -/
 example : ([0, 1, 2] : List ℚ).Nodup ∧ ([0, 1, 2] : List ℚ).length = ([5, 7, 11] : List ℚ).length
     ∧ ([0, 1, 2] : List ℚ) ≠ [] := by decide
